@@ -46,10 +46,12 @@ def main():
         finally:
             sh('git checkout -- .', cwd=repo)
         viol = [l for l in out.splitlines() if l.startswith('VIOLATION') or l.startswith('build:')]
+        import re
+        occ = sum(int(m.group(1)) for m in re.finditer(r'violation group .*: (\d+) occurrences in this run', out))
         ok = rc == 1 and bool(viol)
         bad += 0 if ok else 1
-        print('%-55s %s rc=%d violations=%d %.0fs' % (mid, 'reported' if ok else 'MISSED', rc, len(viol), time.time() - t0), flush=True)
-        res.append(dict(id=mid, property=prop, applies=True, exit_code=rc, violations=len(viol), seconds=round(time.time() - t0, 1), reported=ok))
+        print('%-55s %s rc=%d violations=%d occurrences=%d %.0fs' % (mid, 'reported' if ok else 'MISSED', rc, len(viol), occ, time.time() - t0), flush=True)
+        res.append(dict(id=mid, property=prop, applies=True, exit_code=rc, violations=len(viol), failing_runs=occ, seconds=round(time.time() - t0, 1), reported=ok))
     # and the unchanged copy last (rebuilds the engines from the restored headers)
     quiet = {}
     for prop in ('C01', 'C10', 'C11', 'C12', 'C13'):
